@@ -118,7 +118,7 @@ func runCase(c *common.Ctx, ct caseT, r *common.Rand, cf *common.CaseFile) error
 	// build the target
 	var h *hist.Runner
 	if ct.Target != "absent" {
-		cfg := hist.Config{PageSize: ct.TargetPS, Regime: 0, AllowWAL: ct.Target == "wal-pending", ForceWAL: ct.Target == "wal-pending"}
+		cfg := hist.Config{PageSize: ct.TargetPS, Regime: 0, AllowWAL: strings.HasPrefix(ct.Target, "wal-pending"), ForceWAL: strings.HasPrefix(ct.Target, "wal-pending")}
 		h = hist.NewOn(c, r.Fork(), cfg, p.Store, p.Exits, name, nil, 0, false)
 		n := 0
 		for tries := 0; n < 3 && tries < 30; tries++ {
@@ -133,8 +133,27 @@ func runCase(c *common.Ctx, ct caseT, r *common.Rand, cf *common.CaseFile) error
 				return nil
 			}
 		}
-		if ct.Target == "wal-pending" && !h.WALMode {
+		if strings.HasPrefix(ct.Target, "wal-pending") && !h.WALMode {
 			return nil
+		}
+		if ct.Target == "wal-pending-shrunk" {
+			// the database file holds 8 pages; a WAL transaction, not checkpointed, makes the database 4 pages
+			cur := uint32(len(h.Ref.Pages))
+			grow := hist.Step{Op: "wtx", NewSize: 8}
+			for pg := uint32(1); pg <= 8; pg++ {
+				if pg > cur || pg == 2 {
+					grow.Frames = append(grow.Frames, [2]uint64{uint64(pg), 7000 + uint64(pg)})
+				}
+			}
+			if ob := h.Exec(grow); ob.Err != "" || ob.Panic != "" {
+				return nil
+			}
+			if ob := h.Exec(hist.Step{Op: "appckpt", CkptMode: 0}); ob.Err != "" || ob.Panic != "" {
+				return nil
+			}
+			if ob := h.Exec(hist.Step{Op: "wtx", NewSize: 4, Frames: [][2]uint64{{3, 7103}}}); ob.Err != "" || ob.Panic != "" {
+				return nil
+			}
 		}
 		if ct.Target == "dropped" {
 			if ob := h.Exec(hist.Step{Op: "drop"}); ob.Err != "" {
@@ -144,7 +163,7 @@ func runCase(c *common.Ctx, ct caseT, r *common.Rand, cf *common.CaseFile) error
 	}
 	before := dbPos(p.Store, name)
 	var expBefore []byte
-	if ct.Target == "rollback" || ct.Target == "wal-pending" {
+	if ct.Target == "rollback" || strings.HasPrefix(ct.Target, "wal-pending") {
 		if expBefore, err = export(p.Server.URL(), name); err != nil {
 			c.Violate(key("export-before"), "export of the populated database failed: "+err.Error(), rep)
 			return nil
@@ -350,6 +369,8 @@ func Run(c *common.Ctx) error {
 			caseT{Target: tgt, TargetPS: 512, ImagePS: 1024, ImageN: 3, Bad: "last-page-missing"},
 		)
 	}
+	cases = append(cases, caseT{Target: "wal-pending-shrunk", TargetPS: 512, ImagePS: 512, ImageN: 5}, caseT{Target: "wal-pending-shrunk", TargetPS: 512, ImagePS: 512, ImageN: 4, ImageWAL: true},
+		caseT{Target: "wal-pending-shrunk", TargetPS: 512, ImagePS: 512, ImageN: 9}, caseT{Target: "wal-pending-shrunk", TargetPS: 512, ImagePS: 512, ImageN: 4, Bad: "garbage"})
 	cases = append(cases, caseT{Target: "rollback", TargetPS: 512, ImagePS: 512, ImageN: 260}, caseT{Target: "wal-pending", TargetPS: 512, ImagePS: 512, ImageN: 257, ImageWAL: true})
 	if c.Thorough() {
 		for _, ps := range []int{1024, 2048, 8192, 65536} {
@@ -365,5 +386,10 @@ func Run(c *common.Ctx) error {
 		}
 	}
 	c.Sample(map[string]any{"case": cases[2], "cases": len(cases)})
+	if c.Thorough() {
+		if err := lockPageImport(c, c.Rng.Fork()); err != nil {
+			return err
+		}
+	}
 	return nil
 }
